@@ -113,6 +113,10 @@ class _NormType(_BasicNormType):
         return self._origin
 
 
+# (text, id of the object the text may be ambiguous for, keys of args) -- compared lexicographically
+_OrderKey = tuple[str, int, list]
+
+
 class _UnionNormType(_BasicNormType):
     def __init__(self, args: VarTuple[Any], *, source: TypeHint):
         super().__init__(self._order_args(args), source=source)
@@ -121,11 +125,15 @@ class _UnionNormType(_BasicNormType):
     def origin(self) -> Any:
         return Union
 
-    # ensure stable order of args during one interpreter session
-    def _make_orderable(self, obj: object) -> str:
+    # ensure stable order of args during one interpreter session:
+    # distinct args get distinct keys (objects with equal str() are told apart by id()),
+    # so the order does not depend on the order the args were written in
+    def _make_orderable(self, obj: object) -> _OrderKey:
+        if isinstance(obj, _LiteralNormType):
+            return (str(obj.origin), id(obj.origin), [obj._make_orderable(arg) for arg in obj.args])
         if isinstance(obj, BaseNormType):
-            return f"{obj.origin} {[self._make_orderable(arg) for arg in obj.args]}"
-        return str(obj)
+            return (str(obj.origin), id(obj.origin), [self._make_orderable(arg) for arg in obj.args])
+        return (str(obj), 0, [])
 
     def _order_args(self, args: VarTuple[BaseNormType]) -> VarTuple[BaseNormType]:
         args_list = list(args)
@@ -149,8 +157,10 @@ class _LiteralNormType(_BasicNormType):
         return Literal
 
     # ensure stable order of args during one interpreter session
-    def _make_orderable(self, obj: LiteralArg) -> str:
-        return f"{type(obj)}{obj.name}" if isinstance(obj, Enum) else repr(obj)
+    def _make_orderable(self, obj: LiteralArg) -> _OrderKey:
+        if isinstance(obj, Enum):
+            return (f"{type(obj)}{obj.name}", id(type(obj)), [])
+        return (repr(obj), 0, [])
 
     def _order_args(self, args: VarTuple[LiteralArg]) -> VarTuple[LiteralArg]:
         args_list = list(args)
